@@ -82,20 +82,20 @@ func (s *St) note(format string, a ...any) { s.trace = append(s.trace, fmt.Sprin
 
 // Frame is one (possibly inlined) function activation.
 type Frame struct {
-	id     int
-	fi     *FuncInfo
-	info   *types.Info
-	ret    func(st *St, vals []*Val)
-	brk    func(*St)
-	cont   func(*St)
-	lbrk   map[string]func(*St)
-	lcont  map[string]func(*St)
-	depth  int
-	parent *Frame
+	id      int
+	fi      *FuncInfo
+	info    *types.Info
+	ret     func(st *St, vals []*Val)
+	brk     func(*St)
+	cont    func(*St)
+	lbrk    map[string]func(*St)
+	lcont   map[string]func(*St)
+	depth   int
+	parent  *Frame
 	results []*types.Var
 	inlined bool
-	tsubst map[*types.TypeParam]types.Type
-	label  string // pending label for the next loop statement
+	tsubst  map[*types.TypeParam]types.Type
+	label   string // pending label for the next loop statement
 }
 
 func (f *Frame) withLoop(brk, cont func(*St), label string) *Frame {
